@@ -50,6 +50,7 @@ func child(deadline time.Time) *sched.RaceSummary {
 }
 
 func TestCheck(t *testing.T) {
+	vk.UseT(t)
 	sched.RaceChild(child)
 	r := vk.Start("C09", "model_checking", 60*time.Second, 4*time.Minute)
 	sched.RunRaceParent(r, vk.Pick(r, 20, 120),
